@@ -11,6 +11,8 @@ HARNESS = ["cmd/zz_verif_c20_test.go"]
 
 URL_CLASS = {"https://nuts.nl": None, "http://nuts.nl": "url-not-https", "https://127.0.0.1": "url-ip", "https://localhost": "url-reserved",
              "https://node.example.com": "url-reserved", "": "url-missing"}
+RESERVED_TLDS = {"corp", "example", "home", "host", "invalid", "lan", "local", "localdomain", "localhost", "test"}
+RESERVED_L2 = {"example.com", "example.net", "example.org"}
 PRODUCT_SIZE = 2 * 6 * 2 * 3 * 3 * 2 * 2 * 2
 
 
@@ -125,8 +127,15 @@ def run(ctx):
                 host = bytes.fromhex(line.split("host=")[1]).decode("latin1")
                 scheme = url.split(":", 1)[0].lower()
                 if strict:
-                    labels = host.rsplit(":", 1)[0].lower().split(".") if not host.startswith("[") else [host]
-                    reserved = labels[-1] in tlds or ".".join(labels[-2:]) in l2s
+                    # independent of the regenerated lists: RFC 2606 / RFC 6762 names, with or without the root dot
+                    name = re.sub(r":\d*$", "", host).lower() if not host.startswith("[") else host
+                    bare = name.rstrip(".")
+                    labels = bare.split(".")
+                    reserved = (labels[-1] in RESERVED_TLDS or ".".join(labels[-2:]) in RESERVED_L2 or bare == "" or
+                                name.split(".")[-1] in tlds or ".".join(name.split(".")[-2:]) in l2s)
+                    if host_is_ip(re.sub(r"\.(?=(:\d*)?$)", "", host, count=1)) and not host_is_ip(host):
+                        violation("strict-accepted:url-ip-trailing-dot", f"strict ParsePublicURL accepted an IP address written with a trailing dot {url!r}", opl)
+                        continue
                     if scheme != "https":
                         violation("strict-accepted:url-not-https", f"strict ParsePublicURL accepted {url!r}", opl)
                     elif host_is_ip(host):
